@@ -324,7 +324,10 @@ pub fn check_case(ctx: &mut Ctx, case: &Case, cfg: &Cfg, props: &[String], want_
         bump(&mut res, "C08");
     }
     if has(props, "C10") {
-        if let Some(v) = c10_units(&base, &out) {
+        if let Some(mut v) = c10_units(&base, &out) {
+            if !cfg.use_tabs && cfg.tab_width as u32 * cfg.continuation_indents as u32 > 255 {
+                v.detail.push_str(" [site: continuation_indents x tab_width exceeds 255 columns]");
+            }
             res.viols.push(v);
         }
     }
@@ -337,13 +340,20 @@ pub fn check_case(ctx: &mut Ctx, case: &Case, cfg: &Cfg, props: &[String], want_
         res.session.rel("idem", a, b);
         match &second.out {
             Ok(o2) if *o2 == out => {}
-            Ok(o2) => res.viols.push(Viol { prop: "C03", clause: "idempotent", detail: first_diff(&out, o2) }),
+            Ok(o2) => {
+                let site = if has_step(&base.events, "stale_cache_hit") { " [site: re-flow reused a child-line solution cached before strings were re-indented]" } else { "" };
+                res.viols.push(Viol { prop: "C03", clause: "idempotent", detail: format!("{}{site}", first_diff(&out, o2)) })
+            }
             Err(p) => res.viols.push(Viol { prop: "C04", clause: "panic", detail: p.clone() }),
         }
     }
 
     // ---- C09 line endings
     if has(props, "C09") {
+        let shared_ml = final_stage(&base.events).is_some_and(|fin| {
+            (0..fin.kinds.len()).any(|i| fin.kinds[i] == "TextLiteral(MultiLine)" && fin.lines.iter().filter(|l| l.tokens.contains(&i)).count() > 1)
+        });
+        let c09_site = if shared_ml { " [site: multi-line string shared by the logical lines of several conditional branches]" } else { "" };
         // (ii) crlf configuration = lf result with terminators substituted
         let mut other = cfg.clone();
         other.line_ending = if cfg.line_ending == "crlf" { "lf".into() } else { "crlf".into() };
@@ -353,7 +363,7 @@ pub fn check_case(ctx: &mut Ctx, case: &Case, cfg: &Cfg, props: &[String], want_
         if let Ok(o2) = &r2.out {
             bump(&mut res, "C09");
             if norm_nl(&out) != norm_nl(o2) {
-                res.viols.push(Viol { prop: "C09", clause: "crlf_is_lf_substituted", detail: first_diff(&norm_nl(&out), &norm_nl(o2)) });
+                res.viols.push(Viol { prop: "C09", clause: "crlf_is_lf_substituted", detail: format!("{}{c09_site}", first_diff(&norm_nl(&out), &norm_nl(o2))) });
             }
             for v in c08_c09(&r2, o2, wf) {
                 if v.prop == "C09" {
@@ -371,7 +381,7 @@ pub fn check_case(ctx: &mut Ctx, case: &Case, cfg: &Cfg, props: &[String], want_
                 res.session.rel("lein", a, c);
                 if let Ok(o3) = &r3.out {
                     if *o3 != out {
-                        res.viols.push(Viol { prop: "C09", clause: "input_endings", detail: first_diff(&out, o3) });
+                        res.viols.push(Viol { prop: "C09", clause: "input_endings", detail: format!("{}{c09_site}", first_diff(&out, o3)) });
                     }
                 }
             }
@@ -392,11 +402,15 @@ pub fn check_case(ctx: &mut Ctx, case: &Case, cfg: &Cfg, props: &[String], want_
         if let (Ok(os), Ok(ot)) = (&rs.out, &rt.out) {
             bump(&mut res, "C10");
             let expanded = expand_leading_tabs(ot, sp.tab_width as usize);
+            let c10_site = if sp.tab_width as u32 * sp.continuation_indents as u32 > 255 { " [site: continuation_indents x tab_width exceeds 255 columns]" } else { "" };
             if expanded != *os {
-                res.viols.push(Viol { prop: "C10", clause: "tabs_expand_to_spaces", detail: format!("tab_width={} ci={}: {}", sp.tab_width, sp.continuation_indents, first_diff(os, &expanded)) });
+                res.viols.push(Viol { prop: "C10", clause: "tabs_expand_to_spaces", detail: format!("tab_width={} ci={}: {}{c10_site}", sp.tab_width, sp.continuation_indents, first_diff(os, &expanded)) });
             }
             for r in [&rs, &rt] {
-                if let Some(v) = c10_units(r, r.out.as_ref().unwrap()) {
+                if let Some(mut v) = c10_units(r, r.out.as_ref().unwrap()) {
+                    if !r.cfg.use_tabs {
+                        v.detail.push_str(c10_site);
+                    }
                     res.viols.push(v);
                 }
             }
@@ -431,7 +445,8 @@ pub fn check_case(ctx: &mut Ctx, case: &Case, cfg: &Cfg, props: &[String], want_
                     res.viols.push(Viol { prop: "C11", clause: "fits_narrower_same_result", detail: format!("W1={w1} W2={w2}: result for W2 has max line {mb2} but differs: {}", first_diff(y2, y1)) });
                 }
                 if line_count(y2) > line_count(y1) {
-                    res.viols.push(Viol { prop: "C11", clause: "wider_not_more_lines", detail: format!("W1={w1} -> {} lines, W2={w2} -> {} lines", line_count(y1), line_count(y2)) });
+                    let site = if max_line_len(y1).0 > *w1 as usize { " [site: the narrower width cannot be honoured - its own result has lines longer than W1]" } else { "" };
+                    res.viols.push(Viol { prop: "C11", clause: "wider_not_more_lines", detail: format!("W1={w1} -> {} lines, W2={w2} -> {} lines{site}", line_count(y1), line_count(y2)) });
                 }
                 let (mb1, _) = max_line_len(y1);
                 if mb1 <= *w1 as usize && mc2 > *w2 as usize {
